@@ -567,6 +567,9 @@ namespace detail_ {
 					case modes::pos:
 						if (isdigit(c)) {
 							pos_set = true;
+							// A position that does not fit a size_t is no argument's position.
+							if (tmp_pos > (SIZE_MAX - (c - '0')) / 10)
+								return false;
 							tmp_pos *= 10;
 							tmp_pos += c - '0';
 						} else if (c == ':') {
